@@ -278,7 +278,55 @@ lemma(
     body=_fg_body,
     unstub=[f"{GBX}:GeoBox.from_geopolygon"],
     ghost_args={f"{GBX}:GeoBox.from_bbox": lambda qx0, qx1, qy0, qy1, rx, ry: dict(qx0=qx0, qx1=qx1, qy0=qy0, qy1=qy1, rx=rx, ry=-ry)},
-    note="from_geopolygon with the deprecated align= and a stand-in region object; reprojection of the polygon (crs=...) is pyproj's and not decided",
+    note="from_geopolygon with the deprecated align= and a stand-in region object",
+)
+
+def _fg_reproject_body(qx0, qx1, qy0, qy1, rx, ry, shrink, tol, crs_kind):
+    """crs=<other CRS>: the POLYGON is reprojected and the box of the reprojected polygon is covered -- not the
+    reprojected box of the polygon (the image of a box's corners does not bound the image of a general polygon)."""
+    G = repo(GBX).GeoBox
+    BB = repo(GEOM).BoundingBox
+    T = repo(TYPES)
+    dst_crs = crs_obj("EPSG:3857")
+    src_crs = {"other": crs_obj("EPSG:4326"), "own": dst_crs}[crs_kind]
+    log = []
+
+    class GhostBBox(BB):
+        """bounding box of the polygon in its own CRS; reprojecting THE BOX gives something smaller than the box of the
+        reprojected polygon (as for a diamond-shaped region)"""
+
+        def to_crs(self, crs, *a, **k):
+            log.append(("bbox.to_crs", crs))
+            return BB((qx0 + shrink) * rx, (qy0 + shrink) * ry, (qx1 - shrink) * rx, (qy1 - shrink) * ry, dst_crs)
+
+    own = GhostBBox(-7.0, -3.0, 11.0, 5.0, src_crs)
+    projected = RegionStandIn(BB(qx0 * rx, qy0 * ry, qx1 * rx, qy1 * ry, dst_crs))
+
+    class Region(RegionStandIn):
+        def to_crs(self, crs, *a, **k):
+            log.append(("poly.to_crs", crs))
+            return projected
+
+    poly = Region(own)
+    want_crs = dst_crs
+    g = G.from_geopolygon(poly, resolution=T.Resolution(rx, -ry), crs=want_crs, tol=tol)
+    a, b, c, d, e, f = coeffs(g.affine)
+    ny, nx = g.shape.yx
+    claim(("poly.to_crs", want_crs) in log, "the polygon itself is reprojected to the requested CRS")
+    claim(And(div(c, rx) <= qx0 + tol, div(c, rx) + nx >= qx1 - tol, div(f, ry) - ny <= qy0 + tol, div(f, ry) >= qy1 - tol), "the GeoBox covers the bounding box of the REPROJECTED polygon up to tol")
+    claim(g.crs == want_crs, "the GeoBox is in the requested CRS")
+    claim(And(a == rx, e == -ry, b == 0, d == 0), "requested resolution")
+
+
+lemma(
+    "geobox.from_geopolygon_reprojects_polygon",
+    ["C08"],
+    inputs=dict(qx0=Real(), qx1=Real(), qy0=Real(), qy1=Real(), rx=Real(gt=0), ry=Real(gt=0), shrink=Real(gt=0), tol=Real(ge=0, le=0.25), crs_kind=OneOf("other", "own")),
+    requires=[lambda qx0, qx1, qy0, qy1, shrink: And(qx0 + 2 * shrink <= qx1, qy0 + 2 * shrink <= qy1)],
+    body=_fg_reproject_body,
+    unstub=[f"{GBX}:GeoBox.from_geopolygon"],
+    ghost_args={f"{GBX}:GeoBox.from_bbox": lambda qx0, qx1, qy0, qy1, rx, ry: dict(qx0=qx0, qx1=qx1, qy0=qy0, qy1=qy1, rx=rx, ry=-ry)},
+    note="from_geopolygon with crs=...: data flow over a stand-in region whose reprojection has a KNOWN bounding box that differs from the reprojection of its own box (pyproj itself is not involved)",
 )
 
 # =====================================================================================================
@@ -316,7 +364,10 @@ def _same_crs(a, b):
     return a == b
 
 
-_MIX = [["EPSG:3857", None], [None, "EPSG:3857"], ["EPSG:3857", "EPSG:4326"], [None, None], ["EPSG:3857", "EPSG:3857", "EPSG:4326"], ["EPSG:4326", "epsg:4326"]]
+# every assignment of {no CRS, projected, geographic} to 2, 3 and 4 operands (3^2 + 3^3 + 3^4 = 117 tag vectors: the odd one
+# out at EVERY position, first / middle / last), plus another spelling of the same CRS
+_TAGS = (None, "EPSG:3857", "EPSG:4326")
+_MIX = [list(m) for k in (2, 3, 4) for m in __import__("itertools").product(_TAGS, repeat=k) if len(set(m)) > 1 or m[0] is None] + [["EPSG:4326", "epsg:4326"], ["EPSG:4326", "epsg:4326", "EPSG:4326"]]
 
 for _name, _lo, _hi in (("bbox_union", Min, Max), ("bbox_intersection", Max, Min)):
     contract(
@@ -337,7 +388,7 @@ for _name, _lo, _hi in (("bbox_union", Min, Max), ("bbox_intersection", Max, Min
             ("tagged with the operands' CRS", lambda bbs, result: _same_crs(result.crs, bbs[0].crs)),
         ],
         returns=lambda bbs: BBOX(None if bbs[0].crs is None else str(bbs[0].crs)),
-        note="lists of 1-3 operands (the loop runs over a concrete-length list); CRS mixes: projected/none/geographic/other spelling",
+        note="lists of 1-4 operands (the loop runs over a concrete-length list); CRS tags: every assignment of none/projected/geographic to 2-4 operands, other spelling",
     )
 
 
